@@ -12,6 +12,7 @@ from proj import cdigest, is_code, sname, tobytes, walk
 with xd.quiet():
     import xdis.load as xload
     from xdis import magics
+    import xdis
     from xdis.bytecode import Bytecode
     from xdis.disasm import get_opcode
     from xdis.load import load_module
@@ -52,9 +53,14 @@ def record(co, opc, ident, wf=1):
         ins.append(g)
     code = tobytes(co.co_code)
     labels = [int(x) for x in opc.findlabels(co.co_code, opc)]
+    # the version-generic front door exported by the package (xdis.findlabels = cross_dis.findlabels), next to the finder the table binds
+    try:
+        labels2 = [int(x) for x in xdis.findlabels(co.co_code, opc)]
+    except Exception as e:
+        labels2 = [-7]          # marker: the call raised
     # 3.13 line tables have explicit "no line" starts (line None): not (offset, line) pairs, recorded by C05 only
     lines = sorted([int(a), int(b)] for a, b in opc.findlinestarts(co) if b is not None)
-    return {"id": ident, "tab": table_key(opc), "wf": wf, "code": code, "ins": ins, "labels": labels,
+    return {"id": ident, "tab": table_key(opc), "wf": wf, "code": code, "ins": ins, "labels": labels, "labels2": labels2,
             "exc": exc_targets(bc), "lines": lines,
             "names": [sname(x) for x in co.co_names], "varnames": [sname(x) for x in co.co_varnames],
             "cellvars": [sname(x) for x in getattr(co, "co_cellvars", ())],
